@@ -180,8 +180,9 @@ def is_byte_slice_ref(s):
 
 
 class Obligation:
-    def __init__(self, kind, text, loc, ok, path, fn=None):
+    def __init__(self, kind, text, loc, ok, path, fn=None, refuted=False):
         self.kind, self.text, self.loc, self.ok, self.path, self.fn = kind, text, loc, ok, path, fn
+        self.refuted = refuted      # not merely underivable: the path condition entails that the operation is out of range
 
 
 class PathEnd:
@@ -293,6 +294,14 @@ class Interp:
             return a.get("kind") == "Enum"
         return adt in ("std::ops::ControlFlow", "std::result::Result", "std::task::Poll", "futures_util::future::Either")
 
+    def vec_len(self, st, field):
+        key = "veclen(%s)" % field
+        v = st["heap"].get(key)
+        if not isinstance(v, Lin):
+            v = self.new_len("len(%s)" % field, st["ctx"])
+            st["heap"][key] = v
+        return v
+
     def slice_len(self, v, ctx):
         if isinstance(v, tuple) and v[0] == 'slice':
             return v[1]
@@ -379,8 +388,8 @@ class Interp:
                 return ('array', int(m.group(1)))       # a (promoted) constant array, e.g. `&mut []`
         return self.opaque()
 
-    def oblige(self, st, kind, text, ok, sp=None):
-        self.obligations.append(Obligation(kind, text, st["body"].loc(sp or st["sp"]), ok, list(st["trace"]), st["body"].npath))
+    def oblige(self, st, kind, text, ok, sp=None, refuted=False):
+        self.obligations.append(Obligation(kind, text, st["body"].loc(sp or st["sp"]), ok, list(st["trace"]), st["body"].npath, refuted=bool(refuted) and not ok))
 
     def rvalue(self, st, r, ty):
         k = r["k"]
@@ -700,6 +709,7 @@ class Interp:
                     # only what the loop can change is forgotten
                     for fl in loop_fields:
                         st["heap"].pop(fl, None)
+                        st["heap"].pop("veclen(%s)" % fl, None)
                 st["regions"] = {}
                 for l in assigned:
                     if st["env"].get(l) != ('self',):
@@ -976,12 +986,34 @@ class Interp:
                 self.store(st, t["dest"], L0)
                 return None
             if isinstance(args[0], tuple) and args[0][0] == 'fieldref':
-                # a growable container: its length is only known to be a length (a fresh symbol per call)
-                self.store(st, t["dest"], self.new_len("len(%s)" % args[0][1], ctx))
+                # a growable container of `self`: its length is a heap entry of its own, kept until the container is changed
+                # (extend / push / clear update it, anything else that gets it mutably forgets it)
+                self.store(st, t["dest"], self.vec_len(st, args[0][1]))
                 return None
         if short == "is_empty" and len(args) == 1 and L0 is not None:
             self.store(st, t["dest"], ('cmp', 'Eq', L0, Lin(0)))
             return None
+        if short == "is_empty" and len(args) == 1 and isinstance(args[0], tuple) and args[0][0] == 'fieldref' and args[0][1] != self.len_of:
+            self.store(st, t["dest"], ('cmp', 'Eq', self.vec_len(st, args[0][1]), Lin(0)))
+            return None
+        if args and isinstance(args[0], tuple) and args[0][0] == 'fieldref' and args[0][1] != self.len_of and name.startswith(("std::vec::Vec", "<std::vec::Vec")):
+            fld = args[0][1]
+            if short in ("extend", "extend_from_slice") and len(args) == 2:
+                La = self.slice_len(args[1], ctx)
+                if La is not None:
+                    st["heap"]["veclen(%s)" % fld] = self.vec_len(st, fld) + La
+                else:
+                    st["heap"].pop("veclen(%s)" % fld, None)
+                self.store(st, t["dest"], ('tuple', []))
+                return None
+            if short == "push" and len(args) == 2:
+                st["heap"]["veclen(%s)" % fld] = self.vec_len(st, fld) + 1
+                self.store(st, t["dest"], ('tuple', []))
+                return None
+            if short == "clear" and len(args) == 1:
+                st["heap"]["veclen(%s)" % fld] = Lin(0)
+                self.store(st, t["dest"], ('tuple', []))
+                return None
         if (short in ("index", "index_mut") or name.endswith("::get") or name.endswith("::get_mut")) and len(args) == 2 and L0 is not None \
                 and isinstance(args[1], tuple) and args[1][0] == 'range':
             lo, hi = args[1][1], args[1][2]
@@ -1002,7 +1034,9 @@ class Interp:
                 self.oblige(st, "slice", "slice with bounds that are not linear forms", False, t.get("sp"))
         if short in ("split_at", "split_at_mut") and len(args) == 2 and L0 is not None and isinstance(args[1], Lin):
             k = args[1]
-            self.oblige(st, "split", "split_at(%s) of a slice of length %s" % (k, L0), ctx.ge0(k) and ctx.le(k, L0), t.get("sp"))
+            ok_ = ctx.ge0(k) and ctx.le(k, L0)
+            self.oblige(st, "split", "split_at(%s) of a slice of length %s" % (k, L0), ok_, t.get("sp"),
+                        refuted=(not ok_) and (ctx.ge0(k - L0 - 1) or ctx.ge0(-k - 1)))
             self.store(st, t["dest"], ('tuple', [('slice', k), ('slice', L0 - k)]))
             return None
         if (name in self.inline and args) or (name and self.facts.is_new_helper(name)):
@@ -1028,6 +1062,7 @@ class Interp:
             for a in args:
                 if isinstance(a, tuple) and a[0] == 'fieldref':
                     st["heap"].pop(a[1], None)      # `&mut self.field` lent to an unknown callee
+                    st["heap"].pop("veclen(%s)" % a[1], None)
         # locals that were mutably borrowed may have been changed by any callee holding the reference
         for l in st.get("borrowed", ()):
             v = st["env"].get(l)
